@@ -72,6 +72,7 @@ static void apis_len(size_t L, int A)
     CALL("crypto_aead_" #P "_encrypt_detached", L, adl, A); m = xin(L, A); ad = adl ? xin(adl, A2) : NULL; c = xout(L, A2); t = xout(TL, A); crypto_aead_##P##_encrypt_detached(c, t, &ol, m, L, ad, adl, NULL, N24, K32); \
     CALL("crypto_aead_" #P "_decrypt_detached", L, adl, A); o = xout(L, A); crypto_aead_##P##_decrypt_detached(o, NULL, c, L, t, ad, adl, N24, K32); \
     CALL("crypto_aead_" #P "_decrypt_detached(verify-only)", L, adl, A); crypto_aead_##P##_decrypt_detached(NULL, NULL, c, L, t, ad, adl, N24, K32); \
+    CALL("crypto_aead_" #P "_decrypt_detached(verify-only,forged)", L, adl, A); t[L % TL] ^= 0x10; crypto_aead_##P##_decrypt_detached(NULL, NULL, c, L, t, ad, adl, N24, K32); crypto_aead_##P##_decrypt_detached(o, NULL, c, L, t, ad, adl, N24, K32); t[L % TL] ^= 0x10; \
     CALL("crypto_aead_" #P "_encrypt(inplace)", L, adl, A); crypto_aead_##P##_encrypt_detached(c, t, &ol, c, L, ad, adl, NULL, N24, K32); xfree(); }
     AEAD(chacha20poly1305, 32, 8, 16, 1) AEAD(chacha20poly1305_ietf, 32, 12, 16, 1) AEAD(xchacha20poly1305_ietf, 32, 24, 16, 1)
     AEAD(aes256gcm, 32, 12, 16, crypto_aead_aes256gcm_is_available()) AEAD(aegis128l, 16, 16, 32, 1) AEAD(aegis256, 32, 32, 32, 1)
